@@ -295,7 +295,10 @@ mod verif_c09 {
         let x: f64 = kani::any();
         let v: f64 = kani::any();
         // A's local (slot 1) is captured
-        let slot_a = &mut a.borrow_mut().stack[1] as *mut Value;
+        let slot_a = {
+            let mut f = a.borrow_mut(); // (a `let x = &mut a.borrow_mut()...` would extend the RefMut to the end of the function)
+            &mut f.stack[1] as *mut Value
+        };
         let mut up_a = Placed::new(RefCell::new(ObjUpvalue::new(slot_a)));
         a.borrow_mut().open_upvalues = Some(up_a.gc());
         // A: b.call(x)
@@ -305,7 +308,10 @@ mod verif_c09 {
         assert!(r1.is_ok() && vm_fiber(&w.vm) == Some(b), "B runs");
         assert!(up_a.gc().borrow().is_open() && a.borrow().open_upvalues == Some(up_a.gc()), "calling another fiber leaves the caller's captured variable open");
         // B's parameter (slot 1) is captured, then B yields v
-        let slot_b = &mut b.borrow_mut().stack[1] as *mut Value;
+        let slot_b = {
+            let mut f = b.borrow_mut();
+            &mut f.stack[1] as *mut Value
+        };
         let mut up_b = Placed::new(RefCell::new(ObjUpvalue::new(slot_b)));
         b.borrow_mut().open_upvalues = Some(up_b.gc());
         let ip = ip_b(&w);
